@@ -12,8 +12,7 @@
    once and exactly once if anything reached the sink).
    Proved: the full statement for map, filter, filter_map ([C14_map], [C14_filter],
    [C14_filter_map]); the initializer clause for LazySink over ANY downstream sink
-   ([C14_lazy_init_once_partial]); the refutation of the strict protocol for Unzip
-   ([C14_unzip_strict_refuted], finding unzip/poll_close-after-close-completed).  For flat_map,
+   ([C14_lazy_init_once_partial]).  For flat_map,
    flatten, unzip and the delivery clauses of LazySink the property is checked per run on the
    implementation's histories only (correspondence + executable property), not yet proved. *)
 From Coq Require Import List NArith Bool.
@@ -71,12 +70,13 @@ Theorem C14_lazy_init_once_partial : forall A (nx : sink A) fuel items n ok (s0 
 Proof. exact (@lazy_init_once). Qed.
 Print Assumptions C14_lazy_init_once_partial.
 
-Theorem C14_unzip_strict_refuted : exists (items : list (N * N)) (d0 d1 : sds N),
-    match sdrive (sunzip (srec N) (srec N)) 10 items (d0, d1) [] with
-    | (o, _, s') => o = SFinished /\ swf (slg (fst s')) = false /\ swfw (slg (fst s')) = true
-    end.
-Proof. exact sunzip_strict_refuted. Qed.
-Print Assumptions C14_unzip_strict_refuted.
+(* History: before /repo e255bb09846 sinktools Unzip closed a sink again after its poll_close
+   had completed (finding unzip/poll_close-after-close-completed, now `fixed:`).  The former
+   theorem C14_unzip_strict_refuted was about the pre-fix step function, which survives with its
+   witness in Push/SinkHistoric.v (sunzip_old_strict_refuted) for the record only.  Former
+   witness: items [], sink 0 always Ready, sink 1 poll_close script [Pending] => sink 0 saw
+   poll_close twice.  On the code as it is now the same scripts close sink 0 exactly once
+   (SinkHistoric.sunzip_witness_now_strict; corpus/C14/unzip_reclose.json). *)
 
 (* non-vacuity: a lazy sink whose initializer pends twice; the item handed over while
    uninitialised is delivered first, the initializer ran once *)
